@@ -114,6 +114,30 @@ def build_rt():
     return rc == 0, out + err
 
 
+def build_cc():
+    """Rebuild the compiler harness (parser, audit, generators in-process) from /repo's working tree."""
+    os.makedirs(BUILD, exist_ok=True)
+    src = os.path.join(VERIF, "harness", "cc")
+    shutil.copyfile(os.path.join(REPO, "go.sum"), os.path.join(src, "go.sum"))
+    gomod = open(os.path.join(src, "go.mod")).read()
+    gomod2 = re.sub(r"replace github.com/Workiva/frugal => \S+", "replace github.com/Workiva/frugal => %s" % REPO, gomod)
+    if gomod2 != gomod:
+        open(os.path.join(src, "go.mod"), "w").write(gomod2)
+    tmp = os.path.join(BUILD, "cc.%d" % os.getpid())
+    rc, out, err = run(["go", "build", "-tags", "verif", "-o", tmp, "."], cwd=src, env=GOENV, timeout=1800)
+    if rc == 0: os.replace(tmp, os.path.join(BUILD, "cc"))
+    return rc == 0, out + err
+
+
+def build_frugal():
+    """Build the frugal compiler binary from /repo's working tree into .build/frugal."""
+    os.makedirs(BUILD, exist_ok=True)
+    tmp = os.path.join(BUILD, "frugal.%d" % os.getpid())
+    rc, out, err = run(["go", "build", "-o", tmp, "."], cwd=REPO, env=GOENV, timeout=1800)
+    if rc == 0: os.replace(tmp, os.path.join(BUILD, "frugal"))
+    return rc == 0, out + err
+
+
 class Results:
     def __init__(self):
         self.cases = []      # (suite, input, real)
